@@ -694,7 +694,7 @@ class ChoiceEncoder(AbstractItemEncoder):
             name = names[0]
 
             component = value[name]
-            asn1Spec = asn1Spec[name]
+            asn1Spec = asn1Spec.componentType[name].asn1Object
 
         return encodeFun(component, asn1Spec, **options), True, True
 
